@@ -138,7 +138,7 @@ def gen_history(rng, nsteps):
             j = len(pool) - 1  # the null member
         if rng.random() < 0.1:
             i, j = j, i
-        steps.append([rng.choice(OPS), i, j, rng.choice(["op", "op", "spec", "part", "iop"])])
+        steps.append([rng.choice(OPS), i, j, rng.choice(["op", "op", "spec", "part", "iop", "look"])])
     return {"mode": "history", "pool": pool, "steps": steps, "probes": probes, "on_map": on_map}
 
 
@@ -437,7 +437,17 @@ def run_history(case, ctx):
             reused = True
         kcls = f"{op}/{null_pos(nt)}/history"
         a, b = objs[i], objs[j]
-        if via == "op":
+        if via == "look":
+            # the caller looks at two pool members (compares, prints, hashes, serialises, copies, derives from them) and
+            # only then combines them: looking is a read, every member must stay what it was
+            def looked():
+                build._look(a)
+                _ = (a == b, b == a, a != b, repr(a), repr(b))
+                build._look(b)
+                return {"and": lambda: a & b, "or": lambda: a | b, "xor": lambda: a ^ b}[op]()
+            ok, o = call(looked)
+            ctx.count("history:looked-at-before-combining")
+        elif via == "op":
             ok, o = call({"and": lambda: a & b, "or": lambda: a | b, "xor": lambda: a ^ b}[op])
         elif via == "iop":
             # augmented assignment `x &= b` on a name bound to a: the object a (still a pool member, possibly an
